@@ -191,12 +191,49 @@ def corr_family(ctx):
        (i-b) written with the real csv path, reloaded by the real load_subs under several rank counts, compared
        with the model's read_cell."""
     rep = ctx.report
+    rng = esrv.rng(ctx.seed, "C17/family")
+    if ctx.quick:
+        # all of family 3 12, plus a seeded sample of the members of family 4 12 that mention a3
+        extra = []
+        for _ in range(220):
+            ln = rng.randint(1, 4)
+            keys = rng.sample(range(4), ln)
+            l = [[k, rng.randrange(4)] for k in keys]
+            if any(3 in kv for kv in l):
+                extra.append(["ren", l])
+        for _ in range(120):
+            kind = rng.choice(["scale", "root", "absroot", "absrootsign", "intpow", "neg", "inv", "exp", "logabs", "fcbrt", "absfcbrt", "valnan"])
+            if kind == "scale":
+                n_, d_ = rng.randint(1, 12), rng.randint(1, 12)
+                if math.gcd(n_, d_) != 1 or (n_, d_) == (1, 1):
+                    continue
+                extra.append(["scale", 3, rng.randint(0, 1), n_, d_])
+            elif kind == "root":
+                extra.append(["root", 3, rng.randint(0, 1), rng.choice([3, 5, 7, 9, 11, 13])])
+            elif kind == "absroot":
+                extra.append(["absroot", 3, rng.randint(0, 1), rng.randint(1, 13)])
+            elif kind == "absrootsign":
+                extra.append(["absrootsign", 3, rng.randint(0, 1), rng.randint(2, 13)])
+            elif kind == "intpow":
+                extra.append(["intpow", 3, rng.randint(2, 12)])
+            else:
+                extra.append([kind, 3])
+        fam = "(family 3 12 ++ [%s])%%list" % "; ".join(coq_tmpl(d) for d in extra)
+        famdesc = "family 3 12 plus %d seeded members of family 4 12 that mention a3" % len(extra)
+    else:
+        fam = "(family 4 12)"
+        famdesc = "family 4 12 (all members)"
+    ctx.famdesc = famdesc
     v = HEAD + """
-Eval vm_compute in (map (fun t => s2 (show_tmpl t)) (family 4 12), map (fun t => s2 (cellstr (read_cell (show_tmpl t)))) (family 4 12)).
-"""
-    rc, out = esrv.coq_run(v, timeout=900)
+Definition fam : list tmpl := %s.
+Eval vm_compute in ("INFAM", failing tmpl_ok fam).
+Eval vm_compute in (map (fun t => s2 (show_tmpl t)) fam, map (fun t => s2 (cellstr (read_cell (show_tmpl t)))) fam).
+""" % fam
+    rc, out = esrv.coq_run(v, timeout=1500)
+    okfam = tag_ok(out, "INFAM")
+    out = out.split('"INFAM"', 1)[1] if '"INFAM"' in out else out
     strs = coq_strings(out)
-    if rc != 0 or len(strs) % 2 or not strs:
+    if rc != 0 or len(strs) % 2 or not strs or not okfam:
         rep.fail("broken-correspondence", "could not evaluate the model family", "C17:family-eval", observed=out[-1500:], theorem="family 4 12")
         return
     n = len(strs) // 2
@@ -212,7 +249,7 @@ Eval vm_compute in (map (fun t => s2 (show_tmpl t)) (family 4 12), map (fun t =>
     diff = [(s, b) for s, b in zip(shown, built) if s != b]
     for s in shown[:3] + shown[-3:]:
         rep.case(key=("show", s), sample={"template": s})
-    rep.evaluations += n - 6
+    rep.evaluations += max(0, n - 6)
     for s in shown:
         rep.nontrivial.add(("show", s))
     if diff:
@@ -221,10 +258,6 @@ Eval vm_compute in (map (fun t => s2 (show_tmpl t)) (family 4 12), map (fun t =>
     # --- file round trip with the real writer path and the real load_subs
     rng = esrv.rng(ctx.seed, "C17/rows")
     idx = list(range(n))
-    if ctx.quick:
-        small = [i for i in idx if descs[i][0] != "ren" or len(descs[i][1]) <= 2]
-        big = [i for i in idx if descs[i][0] == "ren" and len(descs[i][1]) > 2]
-        idx = small + rng.sample(big, 300)
     rng.shuffle(idx)
     rows, pos = [], 0
     while pos < len(idx):
@@ -535,12 +568,12 @@ def correspondence(ctx):
     corr_chains(ctx, ALPHA3, 3, 3 if ctx.quick else 6, "k3")
     corr_emitted(ctx)
     corr_literal_eval(ctx)
-    rep.rule = ("family: all 8977 members of family 4 12 (model show_tmpl vs sympy str of the object built as in sympy_simplify); file: %s members written by the real "
+    rep.rule = ("family: %s (model show_tmpl vs sympy str of the object built as in sympy_simplify); file: the same members written by the real "
                 "csv path into rows of 0-8 cells, reloaded by the real load_subs under several rank counts vs model read_cell/load_subs; rows: small files "
                 "(0-23 rows, empty rows) x rank counts up to more ranks than rows; chains: every chain over a 9-letter (k=2) and an 8-letter (k=3) alphabet of real "
                 "strings up to the length bound through the real simplify_inv_subs vs the model loop and cancel; emitted: every cell recorded by the real "
                 "simplifier on crafted inputs and by a real generation run, and each final row vs cancel of the concatenated rounds"
-                % ("a seeded subsample of" if ctx.quick else "all"))
+                % getattr(ctx, "famdesc", "?"))
     rep.exhaustive = True
 
 
